@@ -61,7 +61,8 @@ Definition deepcopy_missing : list string :=
 (* ---- observations ---- *)
 
 Inductive robs := RGraph (vs : list string) (es : list (string * string * list string)) | RErr (e : err) | ROther (msg : string).
-Inductive sobs := STable (f : file) (compiled : list string) | SErr (e : err) | SOther (msg : string).
+(* listings: [--list-all --json --no-status; --list-all --json; --list-all; --list --json --no-status] as name lists ([] = not taken) *)
+Inductive sobs := STable (f : file) (compiled : list string) (listings : list (list string)) | SErr (e : err) | SOther (msg : string).
 Record eobs := { e_name : string; e_ok : bool; e_lines : list (string * string * string * string) }.
 
 Record mcase := { mc_fs : fsys; mc_root : string; mc_read : robs; mc_loads : list sobs; mc_execs : list eobs;
@@ -119,7 +120,7 @@ Definition outcomes (v : variant) (g : graph) : list (option err * file) :=
 
 Definition load_matches (o : option err * file) (l : sobs) : bool :=
   match l, o with
-  | STable f _, (None, m) => file_matches m f
+  | STable f _ _, (None, m) => file_matches m f
   | SErr e, (Some e', _) => err_eqb e e'
   | _, _ => false
   end.
@@ -136,7 +137,7 @@ Definition agree_merge (c : mcase) : bool :=
 Definition on_tables (c : mcase) (f : graph -> table -> bool) : bool :=
   match read (mc_fs c) (mc_root c) with
   | Err _ => true
-  | Ok g => forallb (fun l => match l with STable t _ => f g (f_tasks t) | _ => true end) (mc_loads c)
+  | Ok g => forallb (fun l => match l with STable t _ _ => f g (f_tasks t) | _ => true end) (mc_loads c)
   end.
 
 Definition mon_c08_present (c : mcase) : bool := on_tables c mon_present.
@@ -154,7 +155,7 @@ Definition mon_c08_errors (c : mcase) : bool :=
     | Err e, SErr e' => err_eqb e e'
     | Err _, _ => false
     | Ok g, SErr e => spec_merge_must_fail g && (err_eqb e EDup || err_eqb e EVersion || err_eqb e EDotenv)
-    | Ok g, STable _ _ => negb (spec_merge_must_fail g)
+    | Ok g, STable _ _ _ => negb (spec_merge_must_fail g)
     | Ok _, SOther _ => false
     end) (mc_loads c).
 
@@ -242,9 +243,9 @@ Definition mon_c09_stable (c : mcase) : bool :=
   | Err _ => true
   | Ok g =>
       match mc_loads c with
-      | STable f0 _ :: rest =>
+      | STable f0 _ _ :: rest =>
           forallb (fun l => match l with
-                            | STable f _ => mon_stable (unstructured task_fields) cmd_fields dep_fields g (f_tasks f0) (f_tasks f)
+                            | STable f _ _ => mon_stable (unstructured task_fields) cmd_fields dep_fields g (f_tasks f0) (f_tasks f)
                             | _ => true
                             end) rest
       | _ => true
@@ -262,3 +263,20 @@ Definition mon_vardir (c : mcase) : bool :=
   | [] => true
   | d0 :: rest => forallb (fun d => list_eqb String.eqb d0 d) rest
   end.
+
+(* C09: the listings are the function of the merged table stated in Spec.v (listed): same set AND ORDER on every load *)
+Definition mon_listing (c : mcase) : bool :=
+  forallb (fun l =>
+    match l with
+    | STable f _ [a; b; p; dsc] =>
+        list_eqb String.eqb a (listing_json false (f_tasks f))
+        && list_eqb String.eqb b (listing_json false (f_tasks f))
+        && list_eqb String.eqb p (listing_plain false (f_tasks f))
+        && list_eqb String.eqb dsc (listing_json true (f_tasks f))
+    | STable _ _ [] => true
+    | STable _ _ _ => false
+    | _ => true
+    end) (mc_loads c).
+
+(* C09 trees also get the C08 placement monitor (directory given by the includes, include vars, internal) *)
+Definition mon_c09_place (c : mcase) : bool := on_tables c mon_place.
